@@ -56,6 +56,10 @@ func vExists(lo, hi int, f func(int) bool) bool {
 // the first alternative where decidable and otherwise reports true.
 func sameOrFresh[T any](res, src []T) bool { return true }
 
+// freshArray(s): the array backing s was allocated during the call. Not
+// observable by executing code; reports true when executed.
+func freshArray[T any](s []T) bool { return true }
+
 // distinctArrays(a, b): a and b are backed by different arrays (so writing
 // through one, within its capacity, cannot change the other). Not observable
 // in general; when executed it compares the first elements' addresses.
@@ -64,6 +68,15 @@ func distinctArrays[T any](a, b []T) bool {
 		return true
 	}
 	return &a[:1][0] != &b[:1][0]
+}
+
+// sameSlice(a, b): a and b are the same slice header (same array, start, length
+// and capacity).
+func sameSlice[T any](a, b []T) bool {
+	if len(a) != len(b) || cap(a) != cap(b) {
+		return false
+	}
+	return cap(a) == 0 || &a[:1][0] == &b[:1][0]
 }
 
 // unchanged(s), in a postcondition or invariant: the array backing s holds what
